@@ -260,6 +260,9 @@ def witness_rows():
                 for spelt in {up.lower(), up[:1].lower() + up[1:], up[:1] + up[1:].lower(), up.swapcase()} - {up}:
                     rows.append((f'{o}2{d}', o, d, spelt, None, 'negative' if v < 0 else 'small'))
         if o != 'DEC':
+            # numbers with a fraction are no digit strings, however far behind the digits the fraction sits
+            for frac in (1111111110.4, 1000000000.5, 101.00000000001, 1234567012.25, 10.5, 1.0000000001):
+                rows.append((f'{o}2{d}', o, d, frac, None, 'guards'))
             # more than ten characters are too many, whatever the characters are
             for long in ('0' * 10 + '1', '0' * 11, '0' * 9 + '11', '0' * 30 + '1'):
                 rows.append((f'{o}2{d}', o, d, long, None, 'guards'))
@@ -267,7 +270,7 @@ def witness_rows():
             sample = 5 if o == 'DEC' else _digits(5, o)
             neg = -5 if o == 'DEC' else _digits(-5, o)
             need = len(_digits(5, d))
-            for places in (need, need + 3, 10, need - 1 if need > 1 else 0, 0, 11, -1, True):
+            for places in (need, need + 3, 10, need - 1 if need > 1 else 0, 0, 11, -1, True, float(need + 3), 10.0, float(need)):
                 rows.append((f'{o}2{d}', o, d, sample, places, 'guards'))
             for places in (0, 1, 10, 11):
                 rows.append((f'{o}2{d}', o, d, neg, places, 'guards'))
